@@ -238,6 +238,7 @@ with upos_stmts (ss : stmts) : list pos :=
 
 Definition dpos_decl (d : decl) : list pos :=
   match d with
+  | DStruct n _ fields _ => ipos n :: map ipos fields
   | DImport nm ppos _ => match nm with [] => [ppos] | _ => map ipos nm end
   | DVar names _ vals => map ipos names ++ dpos_exprs vals
   | DConst names vals => map ipos names ++ dpos_exprs vals
@@ -246,6 +247,7 @@ Definition dpos_decl (d : decl) : list pos :=
   end.
 Definition upos_decl (d : decl) : list pos :=
   match d with
+  | DStruct _ embeds _ ftyp => map ipos (flat_map embed_ids embeds) ++ map ipos ftyp
   | DImport _ _ _ => []
   | DVar _ typ vals => map ipos typ ++ upos_exprs vals
   | DConst _ vals => upos_exprs vals
@@ -475,8 +477,9 @@ Proof.
     { apply IH. intros q Hq. apply Hd. simpl. rewrite in_app_iff. tauto. }
     assert (Hd' : forall q, In q (dpos_decl d) -> D q).
     { intros q Hq. apply Hd. simpl. rewrite in_app_iff. tauto. }
-    cbn [fold_right]. destruct d as [nm ppos pn | names typ vals | names vals | n under | fp n params ptyp results rtyp bp body];
+    cbn [fold_right]. destruct d as [sn sembeds sfields sftyp | nm ppos pn | names typ vals | names vals | n under | fp n params ptyp results rtyp bp body];
       cbn [pkg_decl].
+    + apply declare_own_ok; [intros i [<- | []]; apply Hd'; simpl; auto | exact IH'].
     + destruct nm as [|i t].
       * apply env_ok_insert; [simpl; apply Hd'; simpl; auto | exact IH'].
       * destruct (N.eqb (iname i) 0); [exact IH'|].
@@ -491,8 +494,23 @@ Lemma uses_decl (D : pos -> Prop) e d : (forall q, In q (dpos_decl d) -> D q) ->
   use_spec D (upos_decl d) (r_decl e d).
 Proof.
   destruct uses_syntax as [_ [Hxs [_ Hss]]].
-  intros Hd He. destruct d as [nm ppos pn | names typ vals | names vals | n under | fp n params ptyp results rtyp bp body];
+  intros Hd He. destruct d as [sn sembeds sfields sftyp | nm ppos pn | names typ vals | names vals | n under | fp n params ptyp results rtyp bp body];
     cbn [r_decl upos_decl dpos_decl] in *.
+  - replace (map ipos (flat_map embed_ids sembeds) ++ map ipos sftyp)
+      with ([] ++ map ipos (flat_map embed_ids sembeds) ++ [] ++ map ipos sftyp) by reflexivity.
+    apply use_spec_app; [apply use_spec_nouse; apply def_own_no_use|].
+    apply use_spec_app; [|apply use_spec_app; [apply use_spec_nouse; apply def_own_no_use | apply use_spec_use_idents; exact He]].
+    clear Hd. induction sembeds as [|em t IH]; [apply use_spec_nil|].
+    cbn [flat_map map]. rewrite map_app. apply use_spec_app; [|exact IH].
+    unfold r_embed, embed_ids.
+    replace (map ipos (equal em ++ [etyp em])) with (map ipos (equal em ++ [etyp em]) ++ []) by apply app_nil_r.
+    apply use_spec_app; [|apply use_spec_nouse; apply def_own_no_use].
+    destruct (equal em) as [|q qs].
+    + simpl. apply use_spec_use_ident. exact He.
+    + destruct (lookup_env (iname q) e) as [o|] eqn:El; [|apply use_spec_nil].
+      intros j o' [H | [H | []]]; inversion H; subst.
+      * split; [simpl; auto | eapply lookup_env_ok; eauto].
+      * split; [rewrite map_app; apply in_or_app; right; simpl; auto | exact I].
   - apply use_spec_nouse. apply def_own_no_use.
   - apply use_spec_app; [apply use_spec_use_idents; exact He|].
     replace (upos_exprs vals) with (upos_exprs vals ++ []) by apply app_nil_r.
@@ -552,8 +570,11 @@ Definition imp_ppos_decl (d : decl) : list pos := match d with DImport [] ppos _
 Lemma cnt_decl q d : cnt q (imp_ppos_decl d) + cnt q (map ipos (ids_decl d)) = cnt q (dpos_decl d) + cnt q (upos_decl d).
 Proof.
   destruct (cnt_syntax q) as [_ [Hxs [_ Hss]]].
-  destruct d as [nm ppos pn | names typ vals | names vals | n under | fp n params ptyp results rtyp bp body];
+  destruct d as [sn sembeds sfields sftyp | nm ppos pn | names typ vals | names vals | n under | fp n params ptyp results rtyp bp body];
     cbn [imp_ppos_decl ids_decl dpos_decl upos_decl].
+  - change (sn :: flat_map embed_ids sembeds ++ sfields ++ sftyp) with ([sn] ++ flat_map embed_ids sembeds ++ sfields ++ sftyp).
+    change (ipos sn :: map ipos sfields) with ([ipos sn] ++ map ipos sfields).
+    rewrite ?map_app, ?cnt_app. unfold cnt at 1. simpl. lia.
   - destruct nm; cbn [map]; unfold cnt; simpl; lia.
   - rewrite ?map_app, ?cnt_app, Hxs. unfold cnt at 1. simpl. lia.
   - rewrite ?map_app, ?cnt_app, Hxs. unfold cnt at 1. simpl. lia.
@@ -755,8 +776,10 @@ Lemma pkg_scope_in l o : In o (cur_scope (fold_right pkg_decl [[]] l)) -> In o (
 Proof.
   induction l as [|d l IH]; [simpl; tauto|].
   cbn [fold_right flat_map]. intros H. apply in_or_app.
-  destruct d as [nm ppos pn | names typ vals | names vals | n under | fp n params ptyp results rtyp bp body];
+  destruct d as [sn sembeds sfields sftyp | nm ppos pn | names typ vals | names vals | n under | fp n params ptyp results rtyp bp body];
     cbn [pkg_decl pkg_objs] in *.
+  - apply declare_own_scope_in in H. destruct H as [H | [i [H1 [H2 ->]]]]; [right; auto|].
+    left. destruct H1 as [<- | []]. apply in_objs_of; simpl; auto.
   - destruct nm as [|i t].
     + rewrite cur_scope_insert in H. destruct H as [H | H]; [left; simpl; auto | right; auto].
     + unfold objs_of. simpl. destruct (N.eqb (iname i) 0); [right; auto|].
@@ -797,8 +820,16 @@ Qed.
 Lemma defs_decl p d : pkg_names_distinct p -> In d p -> def_spec (nfp_decl d) (rg_decl d) (r_decl (pkg_env p) d).
 Proof.
   destruct defs_syntax as [_ [Hxs [_ Hss]]].
-  intros Hnd Hd. destruct d as [nm ppos pn | names typ vals | names vals | n under | fp n params ptyp results rtyp bp body];
+  intros Hnd Hd. destruct d as [sn sembeds sfields sftyp | nm ppos pn | names typ vals | names vals | n under | fp n params ptyp results rtyp bp body];
     cbn [r_decl nfp_decl rg_decl].
+  - apply def_spec_app; [apply def_spec_own|].
+    apply def_spec_app; [|apply def_spec_app; [apply def_spec_own | apply def_spec_use_idents]].
+    clear Hd. induction sembeds as [|em t IH]; [apply def_spec_nil|].
+    cbn [flat_map]. apply def_spec_app; [|exact IH].
+    unfold r_embed. apply def_spec_app; [|apply def_spec_own].
+    destruct (equal em) as [|q qs]; [apply def_spec_use_ident|].
+    destruct (lookup_env (iname q) (pkg_env p)); [|apply def_spec_nil].
+    repeat (apply def_spec_cons; [nodef|]). apply def_spec_nil.
   - apply def_spec_own.
   - apply def_spec_app; [apply def_spec_use_idents|]. apply def_spec_app; [sub_ Hxs|].
     intros i o H. eapply (def_names_pkg p names (first_pos names) KVar) in H; [|exact Hnd|].
@@ -967,8 +998,24 @@ Qed.
 Lemma nodes_decl_ok e d : node_spec (nodes_decl d) (r_decl e d).
 Proof.
   destruct nodes_syntax as [_ [Hxs [_ Hss]]].
-  destruct d as [nm ppos pn | names typ vals | names vals | n under | fp n params ptyp results rtyp bp body];
+  destruct d as [sn sembeds sfields sftyp | nm ppos pn | names typ vals | names vals | n under | fp n params ptyp results rtyp bp body];
     cbn [r_decl nodes_decl] in *.
+  - apply node_spec_app; [eapply node_spec_incl; [apply node_spec_def_own|]; isolve|].
+    apply node_spec_app.
+    + eapply node_spec_incl with (N := map ipos (flat_map embed_ids sembeds)); [|intros z Hz; simpl; rewrite !in_app_iff; tauto].
+      induction sembeds as [|em t IH]; [apply node_spec_nil|].
+      cbn [flat_map]. rewrite map_app. apply node_spec_app.
+      * eapply node_spec_incl; [|apply incl_appl, incl_refl].
+        unfold r_embed, embed_ids. apply node_spec_app.
+        -- destruct (equal em) as [|q qs].
+           ++ eapply node_spec_incl; [apply node_spec_use_ident|]. isolve.
+           ++ destruct (lookup_env (iname q) e); [|apply node_spec_nil].
+              apply node_spec_cons; [simpl; auto|]. apply node_spec_cons; [simpl; rewrite map_app, in_app_iff; simpl; auto|].
+              apply node_spec_nil.
+        -- eapply node_spec_incl; [apply node_spec_def_own|]. intros z Hz. rewrite map_app, in_app_iff. simpl in *. tauto.
+      * eapply node_spec_incl; [exact IH | apply incl_appr, incl_refl].
+    + apply node_spec_app; [eapply node_spec_incl; [apply node_spec_def_own|]; intros z Hz; simpl; rewrite !in_app_iff; tauto|].
+      eapply node_spec_incl; [apply node_spec_use_idents|]. intros z Hz; simpl; rewrite !in_app_iff; tauto.
   - eapply node_spec_incl; [apply node_spec_def_own|]. isolve.
   - apply node_spec_app; [eapply node_spec_incl; [apply node_spec_use_idents|]; intros z Hz; rewrite !map_app, !in_app_iff; tauto|].
     apply node_spec_app; [nsub Hxs|].
